@@ -442,6 +442,7 @@ Lemma E_write_script name params value fn : emitsF (write_script name params val
 Proof. unfold write_script. cbv zeta. emsP. Qed.
 
 Definition file_ok (f : file) : Prop :=
+  (zero_range (f_pkg f) = true -> forallb is_blank (e_val (f_pkg f)) = true) /\
   forall e ch, In (FTempl e ch) (f_nodes f) ->
     forallb (ok_node 100) ch = true /\ flat_map (node_exprs 100) ch = flat_map (node_exprs 200) ch.
 
@@ -457,8 +458,13 @@ Proof.
   - apply E_write_css.
   - apply E_write_script.
 Qed.
-Lemma E_pkg e s : emitsF (fun g => add_map e (cur (w g)) (wr s g)) [e].
-Proof. intros g. unfold added. cbn [add_map adds map fst]. rewrite fl_cons. reflexivity. Qed.
+(* the package clause: added, unless its range is zero - then it is blank (file_ok) and left aside on both sides *)
+Lemma E_pkg e s : (zero_range e = true -> forallb is_blank (e_val e) = true) -> emitsF (wpk e s) [e].
+Proof.
+  intros Hz g. unfold added, wpk. destruct (zero_range e).
+  - cbn [wr upd adds filter]. unfold nb. rewrite (Hz eq_refl). reflexivity.
+  - cbn [add_map adds map fst]. rewrite fl_cons. reflexivity.
+Qed.
 Lemma flat_map_single {A} (l : list A) : flat_map (fun x => [x]) l = l.
 Proof. induction l; cbn; congruence. Qed.
 
@@ -467,8 +473,8 @@ Proof.
   intros Hok. unfold gen_all. eapply E_perm.
   - ems.
     + apply (E_seqs_map go_block (fun e => [e])). intros. apply E_go_block.
-    + apply E_pkg.
-    + apply E_write_fnodes. exact Hok.
+    + apply E_pkg. exact (proj1 Hok).
+    + apply E_write_fnodes. exact (proj2 Hok).
   - norm. rewrite flat_map_single. reflexivity.
 Qed.
 
@@ -488,4 +494,4 @@ Proof.
   apply filter_In. split; [exact Hin|]. rewrite Hb. reflexivity.
 Qed.
 Lemma ex_file_ok : file_ok ex_file.
-Proof. intros e ch [H|[]]. inversion H; subst. split; vm_compute; reflexivity. Qed.
+Proof. split; [vm_compute; discriminate|]. intros e ch [H|[]]. inversion H; subst. split; vm_compute; reflexivity. Qed.
